@@ -191,12 +191,13 @@ type c05pair struct {
 	annName   string // interface name written in the annotation
 	file      int    // which file of impl
 	extra     string // a second @implements line on the same type: "<kind>-<before|after>" or ""
+	xsealed   bool   // the interface (declared in package altname) embeds ifc.Sealed, whose unexported method belongs to ifc
 }
 
 var c05features = []string{
 	"plain", "plain", "plain", "ptr-depth-plus", "ptr-depth-minus", "byte-uint8", "rune-int32", "any-iface", "alias-named", "alias-basic", "int-int64",
 	"slice-variadic", "chan-dir", "result-count", "param-count", "method-renamed", "method-dropped", "recv-pointer", "embed-value", "embed-ptr", "embed-iface",
-	"iface-embeds-iface", "T-is-interface", "T-nonstruct", "inner-map-elem", "inner-func-result", "array-len", "named-other-pkg", "param-order", "same-pkgname-composite", "same-pkgname-named", "sealed-promoted-from-embedded-base", "sealed-own-unexported-method", "deep-embedding-all-present", "deep-embedding-deep-method-missing", "deep-embedding-deep-method-wrong", "T-is-alias-all-present", "T-is-alias-method-dropped",
+	"iface-embeds-iface", "T-is-interface", "T-nonstruct", "inner-map-elem", "inner-func-result", "array-len", "named-other-pkg", "param-order", "same-pkgname-composite", "same-pkgname-named", "sealed-promoted-from-embedded-base", "sealed-own-unexported-method", "deep-embedding-all-present", "deep-embedding-deep-method-missing", "deep-embedding-deep-method-wrong", "T-is-alias-all-present", "T-is-alias-method-dropped", "xsealed-promoted-from-embedded-base", "xsealed-own-unexported-method",
 }
 
 func genPair(r *base.Rand, idx int, feature string) *c05pair {
@@ -207,6 +208,9 @@ func genPair(r *base.Rand, idx int, feature string) *c05pair {
 	}
 	if strings.HasPrefix(feature, "sealed-") {
 		p.ifacePkg = "ifc"
+	}
+	if strings.HasPrefix(feature, "xsealed-") {
+		p.ifacePkg = "alt"
 	}
 	allowImpl := p.ifacePkg == "impl"
 	nm := 1 + r.Intn(3)
@@ -271,6 +275,16 @@ func genPair(r *base.Rand, idx int, feature string) *c05pair {
 	for _, m := range p.imethods {
 		p.tmethods = append(p.tmethods, m.clone())
 		p.recvPtr = append(p.recvPtr, false)
+	}
+	if strings.HasPrefix(feature, "xsealed-") {
+		// the sealed method reaches the interface through an embedded interface of ANOTHER package
+		p.ifacePkg, p.xsealed = "alt", true
+		if feature == "xsealed-own-unexported-method" {
+			p.tmethods = append(p.tmethods, &c05method{name: "sealed"}) // impl's own sealed() is not ifc's
+			p.recvPtr = append(p.recvPtr, false)
+		} else {
+			p.viaEmbed = "sealbase"
+		}
 	}
 	if feature == "sealed-promoted-from-embedded-base" {
 		p.tmethods = p.tmethods[:len(p.tmethods)-1] // sealed() comes from the embedded ifc.SealBase
@@ -419,7 +433,7 @@ func genModule(r *base.Rand, nPairs int, startFeature int) *c05module {
 	}
 	qualIfc := map[string]string{"alt": "altname", "impl": "impl"}
 	var ifc, alt strings.Builder
-	ifc.WriteString("package ifc\n\ntype Item struct{ N int }\n\ntype ID int\n\ntype AliasItem = Item\n\ntype AliasInt = int\n\n// SealBase lets other packages implement sealed interfaces by embedding it.\ntype SealBase struct{}\n\nfunc (SealBase) sealed() {}\n\n")
+	ifc.WriteString("package ifc\n\ntype Item struct{ N int }\n\ntype ID int\n\ntype AliasItem = Item\n\ntype AliasInt = int\n\n// SealBase lets other packages implement sealed interfaces by embedding it.\ntype SealBase struct{}\n\nfunc (SealBase) sealed() {}\n\n// Sealed is embedded by interfaces of other packages.\ntype Sealed interface{ sealed() }\n\n")
 	alt.WriteString("package altname\n\nimport \"m5/ifc\"\n\nvar _ ifc.ID\n\ntype Item struct{ Other string }\n\n")
 	implFiles := []*strings.Builder{{}, {}, {}, {}}
 	implFiles[0].WriteString("package impl\n\nimport (\n\tifc0 \"m5/aa/ifc\"\n\t_ \"m5/ab/ifc\"\n\t\"m5/ifc\"\n\tifc2 \"m5/v2/ifc\"\n\t\"m5/yy\"\n)\n\nvar _ ifc0.Item\nvar _ ifc.ID\nvar _ altname.Item\nvar _ ifc2.Item\n\ntype Loc struct{}\n\ntype LocAlias = Loc\n\n// TinyX and EmptyX are targets of second annotation lines.\ntype TinyX interface{ TinyM() }\n\ntype EmptyX interface{}\n\n")
@@ -456,6 +470,9 @@ func genModule(r *base.Rand, nPairs int, startFeature int) *c05module {
 			w.WriteString("}\n\n")
 		} else {
 			fmt.Fprintf(w, "type %s interface {\n", p.ifaceName)
+			if p.xsealed {
+				fmt.Fprintf(w, "\tifc.Sealed\n")
+			}
 			for _, im := range p.imethods {
 				fmt.Fprintf(w, "\t%s\n", im.sig(ctx, qual))
 			}
